@@ -2,6 +2,7 @@
 (* constant values for the MC_Fs instances of C06 - C09 *)
 EXTENDS MC_Fs
 T == <<"t">>
+ASSUME SpellingsAgree(<<"jail">>, T)    \* the five spellings of the target the replays use are one directory
 Sentinels == [dirs |-> {<<"s">>}, files |-> {<<"s", "SL", "k">>}]
 WithTarget == [Sentinels EXCEPT !.dirs = @ \cup {T}]
 TargetIsFile == [Sentinels EXCEPT !.files = @ \cup {T}]
